@@ -72,6 +72,24 @@ def liberr():
     return LibErr(0)
 
 
+class _Ambiguous:
+    def __bool__(self):
+        raise ValueError('the truth value of an element-wise comparison is ambiguous')
+
+
+class Vec(list):
+    """array-like element: a list whose `==` / `!=` is element-wise and has no truth value (what numpy arrays and
+    data frames do).  The sequential meaning of the operators never compares elements (only groupby compares
+    KEYS), so such elements must pass through like any other list."""
+    def __eq__(self, other):
+        return _Ambiguous()
+
+    def __ne__(self, other):
+        return _Ambiguous()
+
+    __hash__ = None
+
+
 def to_py(j):
     if j is None or type(j) is int:
         return j
@@ -575,6 +593,8 @@ def _scripts(ops):
 def _one_run(case, k, mode):
     """-> dict(vals=model syntax | None (drain), n, end, pulled, built_pulled, prints)"""
     vals = [to_py(j) for j in case['vals']]
+    if case.get('arraylike'):
+        vals = [Vec(v) if type(v) is list else v for v in vals]
     err = tuple(case['err']) if case['err'] is not None else None
     src = Source(vals, err)
     prints = []
@@ -940,8 +960,10 @@ def gen_case(rng, tier, boundary=False):
     ks = []
     if partial:
         ks = sorted({rng.choice([0, 1, 1, 2, 3, ln, ln + 1, rng.randrange(0, 2 * ln + 2)]) for _ in range(2)})
+    # array-like elements (lists whose == has no truth value); not where groupby would compare them as keys
+    arraylike = kind == 'list' and not any(op[0] == 'groupby' for op in ops) and rng.random() < 0.5
     return dict(vals=vals, err=err, ops=ops, ks=ks, consume=rng.choice(['iter', 'collect', 'drain', 'iter']),
-                again=rng.random() < 0.3, kw=rng.random() < 0.25, seed=rng.randrange(1 << 30))
+                again=rng.random() < 0.3, kw=rng.random() < 0.25, arraylike=arraylike, seed=rng.randrange(1 << 30))
 
 
 # fixed regression / boundary programs that are always run first
@@ -967,6 +989,7 @@ def corpus():
         dict(vals=r, err=None, ops=[['buffer', 3], ['map', 'add:1'], ['parmap', 'mul:2', 2, True, False], ['head', 3]], ks=[1, 2]),
         dict(vals=r, err=None, ops=[['parmap', 'raiseIfMul:3:0', 1, False, True], ['peek', 2]], ks=[3]),
         dict(vals=r, err=None, ops=[['buffer', 1]], ks=[]),
+        dict(vals=[[1, 2], [], [3]], err=None, ops=[['buffer', 2], ['map', 'ident']], ks=[1], arraylike=True),
         dict(vals=[], err=[0, 0], ops=[['tail', 1], ['batch', 2]], ks=[0, 1]),
         dict(vals=[1, {'e': [0, 3]}, 2], err=None, ops=[['filterExc', [], [1], True]], ks=[]),
         dict(vals=[1, {'e': [0, 3]}, 2], err=None, ops=[['filterExc', [0], 'none', True]], ks=[1]),
